@@ -3,7 +3,7 @@
    history ops; `live` is the client's list of live allocations (offset, requested size); `legal m` only excludes
    freeing a foreign pointer that lies inside the arena (client misbehaviour the pool cannot detect). *)
 From ZV.Common Require Import Base.
-From ZV.C07 Require Import Model ProofsArith ProofsLockFree ProofsProps ProofsBump.
+From ZV.C07 Require Import Model ProofsArith ProofsLockFree ProofsProps ProofsBump ProofsFixedCap.
 Open Scope N_scope.
 
 (* any two live allocations occupy disjoint byte ranges - for every history and every arena size *)
@@ -136,3 +136,21 @@ Check bump_align_refuted :
   exists base size align o s', base mod 8 = 0 /\
     balloc Pinned (bstart 100 base) size align = (Some o, s') /\ (base + o) mod align <> 0.
 Print Assumptions bump_align_refuted.
+
+(* FixedCapacityMemoryPool: for every block size, block count, class table and history of allocate / guard drop, the
+   live allocations are distinct whole blocks (disjoint at the full block size, which is >= every class size) inside
+   the arena of nblocks * max_block_size bytes *)
+Theorem fixedcap_live_disjoint_within :
+  forall mx al nb ops, 0 < mx ->
+    let s := fst (frun (fstart mx al nb) ops) in
+    (forall i j o1 k1 o2 k2, i <> j ->
+       nth_error (flive s) i = Some (o1, k1) -> nth_error (flive s) j = Some (o2, k2) -> disjoint o1 mx o2 mx) /\
+    (forall o k, In (o, k) (flive s) -> o + mx <= nb * mx).
+Proof. exact fixedcap_live_disjoint_within_proof. Qed.
+Check fixedcap_live_disjoint_within :
+  forall mx al nb ops, 0 < mx ->
+    let s := fst (frun (fstart mx al nb) ops) in
+    (forall i j o1 k1 o2 k2, i <> j ->
+       nth_error (flive s) i = Some (o1, k1) -> nth_error (flive s) j = Some (o2, k2) -> disjoint o1 mx o2 mx) /\
+    (forall o k, In (o, k) (flive s) -> o + mx <= nb * mx).
+Print Assumptions fixedcap_live_disjoint_within.
